@@ -81,87 +81,90 @@ def run(ctx):
 
 # ---------------------------------------------------------------------------
 def check_projection_rhs(ctx, lib, stop):
+    """Decided token kind by token kind (29 cases): with peek(0) of kind K and lbp(K) taken from the table, which calls lie on
+    the path and what is returned — whatever the spelling (match, `==` / matches! tests with early returns, a private enum
+    computed first)."""
+    from ..decision import Undecided, Walker
+    from .c10 import promoted_variant
     rule = "projection-rhs"
     b = ctx.fn(P + "projection_rhs", rule=rule)
     if b is None:
         return
-    o = Origins(b, lib)
-    br = Branches(b, o)
-    blk, ve = first_discr_switch(b, br, TOKEN)
-    if ve is None:
-        ctx.missing(rule, "switch", "projection_rhs does not dispatch on the kind of peek(0)")
+    table, why = lbp_table(lib)
+    if table is None or stop is None:
+        ctx.missing(rule, "lbp", why or "PROJECTION_STOP")
         return
-    scr_ok = all(t[0] == "call" and t[1] == P + "peek" and ("const", 0) in t[2][1] for t in ve["scrutinee"])
-    ctx.check(scr_ok, rule, "scrutinee", f"dispatch is on peek(0): {fmt_terms(ve['scrutinee'])}", b.span)
-    edges = ve["edges"]
-    ctx.check(set(edges) == {"Dot", "Lbracket", "Filter"}, rule, "continuing-kinds",
-              f"kinds handled before the threshold test are exactly Dot, Lbracket, Filter (found {sorted(edges)})")
+    o = Origins(b, lib)
 
-    def arm_calls(start):
-        reg = region(b, start)
-        return [(bb, t) for bb, t in region_calls(b, reg)]
+    def is_peek0(x):
+        x = strip_through(x)
+        return x[0] == "call" and x[1] == P + "peek" and len(x[2]) == 2 and set(x[2][1]) == {("const", 0)}
 
-    # Dot: advance then parse_dot(lbp-param)
-    if "Dot" in edges:
-        calls = arm_calls(edges["Dot"])
-        names = [t["callee"] for _, t in calls if t["callee"].startswith(P)]
-        ok = names[:2] == [P + "advance", P + "parse_dot"] and P + "expr" not in names
-        if ok:
-            pd = [t for _, t in calls if t["callee"] == P + "parse_dot"][0]
-            ok = o.of_operand(pd["args"][1]) == {("param", 2)}
-        ctx.check(ok, rule, "Dot-arm", f"Dot: consume it, then parse_dot(lbp parameter) (calls {names})", b.span)
-    for k in ("Lbracket", "Filter"):
-        if k in edges:
-            calls = arm_calls(edges[k])
-            names = [t["callee"] for _, t in calls if t["callee"].startswith(P)]
-            ok = names == [P + "expr"]
-            if ok:
-                ok = o.of_operand(calls[0][1]["args"][1]) == {("param", 2)} if calls[0][1]["callee"] == P + "expr" else False
-                ex = [t for _, t in calls if t["callee"] == P + "expr"][0]
-                ok = o.of_operand(ex["args"][1]) == {("param", 2)}
-            ctx.check(ok, rule, f"{k}-arm", f"{k}: not consumed, parsed as a fresh operand with expr(lbp parameter) (calls {names})", b.span)
-    # otherwise: Lt(lbp(peek), STOP) ? Ok(Identity) : Err
-    oth = ve["otherwise"]
-    reg = region(b, oth)
-    sw = [bb for bb in sorted(reg) if b.blocks[bb]["term"]["k"] == "switch"]
-    found = False
-    for bb in sw:
-        be = br.bool_edges(bb)
-        if not be:
+    want_kinds = {"Dot": "dot", "Lbracket": "operand", "Filter": "operand"}
+    got = {}
+    details = {}
+    for K in ALL_TOKENS:
+        def atom(t, K=K):
+            if t[0] == "discr" and is_peek0(t[1]):
+                return K
+            return None
+
+        def call(t, argvals, K=K):
+            if t[1] == "lexer::Token::lbp" and t[2] and t[2][0] and all(is_peek0(x) for x in t[2][0]):
+                return table[K]
+            if t[1] in ("std::cmp::PartialEq::eq", "std::cmp::PartialEq::ne") and len(t[2]) == 2:
+                sides = [set(a) for a in t[2]]
+                pk = [sd for sd in sides if sd and all(is_peek0(x) for x in sd)]
+                pr = [sd for sd in sides if sd and all(x[0] == "promoted" for x in sd)]
+                if len(pk) == 1 and len(pr) == 1:
+                    vs = {promoted_variant(lib, b, x[1], TOKEN) for x in pr[0]}
+                    if len(vs) == 1 and None not in vs:
+                        r = int(next(iter(vs)) == K)
+                        return r if t[1].endswith("::eq") else 1 - r
+            return None
+        w = Walker(b, o, atom=atom, call=call)
+        try:
+            paths = w.walk()
+        except Undecided as e:
+            got[K] = f"undecided ({e})"
             continue
-        for term in br.cond(bb):
-            if term[0] == "bin" and term[1] in ("Lt", "Le", "Gt", "Ge"):
-                lhs, rhs = term[2], term[3]
-
-                def is_lbp_peek_(x):
-                    return x[0] == "call" and x[1] == "lexer::Token::lbp"
-
-                def is_stop_(x):
-                    return x[0] == "const" and stop is not None and x[1] == stop
-                # the same strict test in any of its four spellings: lbp < STOP, !(lbp >= STOP), STOP > lbp, !(STOP <= lbp)
-                tt, ft = be
-                below = above = None
-                if is_lbp_peek_(lhs) and is_stop_(rhs) and term[1] in ("Lt", "Ge"):
-                    below, above = (tt, ft) if term[1] == "Lt" else (ft, tt)
-                elif is_stop_(lhs) and is_lbp_peek_(rhs) and term[1] in ("Gt", "Le"):
-                    below, above = (tt, ft) if term[1] == "Gt" else (ft, tt)
-                ctx.check(below is not None, rule, "threshold-test",
-                          f"threshold test is lbp(peek) < PROJECTION_STOP (found {term[1]}({fmt_terms([lhs])}, {fmt_terms([rhs])}))", b.span)
-                if below is None:
-                    found = True
-                    continue
-                treg = region(b, below)
-                freg = region(b, above)
-                t_ok = [s for _, _, s in region_aggs(b, treg, AST)]
-                t_id = any(s["rv"]["variant"] == "Identity" for s in t_ok) and not any(
-                    t["callee"].startswith(P) for _, t in region_calls(b, treg))
-                f_err = any(s["rv"]["variant"] == "Err" for _, _, s in region_aggs(b, freg, "std::result::Result")) and not region_aggs(b, freg, AST) \
-                    and all(t["callee"] in (P + "err",) for _, t in region_calls(b, freg) if t["callee"].startswith(P))
-                ctx.check(t_id, rule, "below-threshold", "below the threshold the right-hand side is Identity and nothing is consumed", b.span)
-                ctx.check(f_err, rule, "above-threshold", "any other token is a parse error", b.span)
-                found = True
-    if not found:
-        ctx.missing(rule, "threshold-test", "no comparison of lbp(peek) with PROJECTION_STOP in projection_rhs")
+        outs = set()
+        for path, leaf in paths:
+            calls = [b.blocks[x]["term"] for x in path if b.blocks[x]["term"]["k"] == "call" and b.blocks[x]["term"]["callee"].startswith(P)]
+            names = [c["callee"][len(P):] for c in calls if c["callee"][len(P):] not in ("peek",)]
+            res = {strip_through(x) for x in w.result_on_path(path)}
+            po = Origins(b, lib, only_blocks=set(path))
+            if names[:2] == ["advance", "parse_dot"] and len(names) == 2 and po.of_operand(calls[[c["callee"] for c in calls].index(P + "parse_dot")]["args"][1]) == {("param", 2)} and \
+                    all(x[0] == "call" and x[1] == P + "parse_dot" for x in res):
+                outs.add("dot")
+            elif names == ["expr"] and po.of_operand([c for c in calls if c["callee"] == P + "expr"][0]["args"][1]) == {("param", 2)} and \
+                    all(x[0] == "call" and x[1] == P + "expr" for x in res):
+                outs.add("operand")
+            elif not names and res and all(x[0] == "agg" and x[1] == "std::result::Result::Ok" and x[2][0] and
+                                           all(y[0] == "agg" and y[1] == AST + "::Identity" for y in x[2][0]) for x in res):
+                outs.add("identity")
+            elif names == ["err"] and res and all(x[0] == "agg" and x[1] == "std::result::Result::Err" for x in res):
+                outs.add("error")
+            else:
+                outs.add("?" + ",".join(names) + ":" + fmt_terms(res)[:60])
+        got[K] = "|".join(sorted(outs))
+    n_ok = 0
+    for K in ALL_TOKENS:
+        want = want_kinds.get(K) or ("identity" if table[K] < stop else "error")
+        ok = got[K] == want
+        n_ok += ok
+        if K in want_kinds:
+            text = {"dot": "Dot: consume it, then parse_dot(lbp parameter)", "operand": f"{K}: not consumed, parsed as a fresh operand with expr(lbp parameter)"}[want]
+            ctx.check(ok, rule, f"{K}-arm", text + f" (found {got[K]})", b.span)
+        elif not ok:
+            ctx.bad(rule, f"kind:{K}", f"peek(0) = {K} (lbp {table[K]}, threshold {stop}): expected {want}, found {got[K]}", b.span)
+    ctx.check(all(got[K] == want_kinds[K] for K in want_kinds), rule, "continuing-kinds", "the kinds that continue a projection are exactly Dot, Lbracket, Filter", b.span)
+    below = [K for K in ALL_TOKENS if K not in want_kinds and table[K] < stop]
+    above = [K for K in ALL_TOKENS if K not in want_kinds and table[K] >= stop]
+    ctx.check(all(got[K] == "identity" for K in below), rule, "below-threshold", "below the threshold the right-hand side is Identity and nothing is consumed", b.span)
+    ctx.check(all(got[K] == "error" for K in above), rule, "above-threshold", "any other token is a parse error", b.span)
+    ctx.check(True, rule, "threshold-test", f"decided for all {len(ALL_TOKENS)} token kinds against lbp(kind) < PROJECTION_STOP = {stop}", b.span)
+    ctx.check(True, rule, "scrutinee", "dispatch is on peek(0) (the walk substitutes the kind of peek(0) only)", b.span)
 
 
 # ---------------------------------------------------------------------------
